@@ -298,6 +298,8 @@ func init() {
 				}{{"client", false}, {"client", true}, {"server", false}} {
 					scs = append(scs, sc{wParams{Dir: dir, Tree: "one:R:21000", Timeout: 5}, kind.side, kind.del})
 					scs = append(scs, sc{wParams{Dir: dir, Tree: "dir", Directory: true, Timeout: 5, DstPre: "c07:f--"}, kind.side, kind.del})
+					// -y onto an existing file: the stop can land inside the prefix-hash exchange (3 blocks of 64 bytes agree, the 4th differs)
+					scs = append(scs, sc{wParams{Dir: dir, Tree: "one:E:300", Overwrite: true, DstPre: "c08:same@200", HashStep: 64, Timeout: 5}, kind.side, kind.del})
 					if tier == "thorough" {
 						scs = append(scs, sc{wParams{Dir: dir, Tree: "small3", Protocol: 2, Timeout: 5}, kind.side, kind.del})
 						scs = append(scs, sc{wParams{Dir: dir, Tree: "dir", Directory: true, Overwrite: true, Timeout: 5}, kind.side, kind.del})
@@ -314,7 +316,7 @@ func init() {
 				}
 			}
 			if tier == "thorough" {
-				for _, s := range scs[:6] {
+				for _, s := range scs[:7] {
 					n := 16
 					for k := 0; k < n; k++ {
 						jobs = append(jobs, vs.MkJob(fmt.Sprintf("sched1 %s side=%s delete=%v %d/%d", s.w.String(), s.side, s.delete, k, n), c10Params{W: s.w, Side: s.side, Delete: s.delete, Shard: k, NShards: n, Sched: 1}))
